@@ -1,10 +1,10 @@
 SPECIFICATION Spec
 CONSTANTS
-  ValueStacks = {"a", "b"}
+  ValueStacks = {"a"}
   Unbounded = 1000000
-  HasSteps = TRUE
-  HasInputs = TRUE
-  MaxCalls = 6
+  HasSteps = FALSE
+  HasInputs = FALSE
+  MaxCalls = 5
   SizeChoices = {1, 3}
   ValueLists <- VL
   Progs <- PG
